@@ -1510,7 +1510,7 @@ def run_env(case: dict) -> Tuple[List[str], dict]:
                 if n_proxies == 1 and not case.get("game_loop"):
                     env = PrimaiteGymEnv(env_config=cfg)
                     game = env.game
-                elif n_proxies > 1 and (case.get("marl") or case["seed"] % 2 == 0):
+                elif n_proxies > 1 and case.get("marl"):   # (only the cases prepared for it by _env_cfg: action masking off)
                     # several RL agents: the multi-agent environment (its OWN step pipeline: pre_timestep / apply_agent_actions /
                     # advance_timestep / update_agents, and the dictionary of rewards it returns)
                     marl = marl_env_class()(env_config=cfg)
